@@ -177,6 +177,10 @@ func checkC04(c *Ctx) {
 		c.anchorMissing("OWN-pruner-entry", "startPruning no longer reaches a deletion")
 	}
 
+	// (1d) an open export keeps its pin until it is closed, and a double Close releases only its own pin
+	c.rule("ORDER-pin-release", "an export's pin is released once, by its own Close", 1)
+	checkCloseOnce(c, "ORDER-pin-release")
+
 	// (2)
 	ea := newErrAnalysis(c, l)
 	tow := l.Func("", "*nodeDB.traverseOrphansWithRootkeyCache")
@@ -194,6 +198,7 @@ func checkC04(c *Ctx) {
 	}
 	ea.runE1E2E4("ERR-prune", "ERR-prune", "ERR-prune", inFns(dvt, dv, dlv, tow, l.Func("", "*nodeDB.traverseOrphans"), l.Func("", "*nodeDB.deleteFromPruning"), l.Func("", "*nodeDB.saveNodeFromPruning"), l.Func("", "*nodeDB.DeleteVersionsTo")))
 	ea.runE3("ERR-E3-orphans", inFns(tow))
+	ea.runE3Strict("ERR-E3-orphans", tow)
 
 	// (3)
 	var dvCall *ssa.Call
